@@ -566,6 +566,76 @@ func c13DeepDoc(depth int) string {
 	return sb.String()
 }
 
+// c13MultiClientDoc returns a version-0 document like base, but with 2-5
+// persistent clients whose ip, mac, name, safesearch_enabled and
+// blocked_services all differ, and with more upstreams.
+func c13MultiClientDoc(rng *rand.Rand, j int, base []byte) []byte {
+	var root map[string]any
+	if yaml.Unmarshal(base, &root) != nil || root == nil {
+		return nil
+	}
+	n := 2 + rng.Intn(4)
+	svcs := []string{"500px", "youtube", "facebook", "tiktok", "reddit", "steam", "twitch"}
+	var clients []any
+	for i := 0; i < n; i++ {
+		c := map[string]any{
+			"name":                 fmt.Sprintf("client-%d-%d", j, i),
+			"use_global_settings":  rng.Intn(2) == 0,
+			"filtering_enabled":    rng.Intn(2) == 0,
+			"parental_enabled":     rng.Intn(2) == 0,
+			"safebrowsing_enabled": rng.Intn(2) == 0,
+			"safesearch_enabled":   i%2 == 0,
+		}
+		ip := fmt.Sprintf("10.%d.%d.%d", j, i, 1+rng.Intn(250))
+		mac := fmt.Sprintf("02:00:00:%02x:%02x:%02x", j, i, rng.Intn(256))
+		switch {
+		case i == n-1 || rng.Intn(3) == 0:
+			c["ip"], c["mac"] = ip, mac
+		case rng.Intn(2) == 0:
+			c["ip"], c["mac"] = ip, ""
+		default:
+			c["mac"] = mac
+		}
+		if rng.Intn(4) != 0 {
+			var l []any
+			for _, x := range rng.Perm(len(svcs))[:rng.Intn(4)] {
+				l = append(l, svcs[x])
+			}
+			if l == nil {
+				l = []any{}
+			}
+			c["blocked_services"] = l
+		}
+		clients = append(clients, c)
+	}
+	root["clients"] = clients
+	if dns, ok := root["coredns"].(map[string]any); ok {
+		ups := []any{}
+		for i := 0; i < 3+rng.Intn(5); i++ {
+			switch rng.Intn(4) {
+			case 0:
+				ups = append(ups, fmt.Sprintf("quic://dns%d-%d.example", j, i))
+			case 1:
+				ups = append(ups, fmt.Sprintf("[/zone%d.example/]quic://10.%d.%d.1", i, j, i))
+			case 2:
+				ups = append(ups, fmt.Sprintf("tls://dns%d-%d.example", j, i))
+			default:
+				ups = append(ups, fmt.Sprintf("10.%d.%d.53", j, i))
+			}
+		}
+		dns["upstream_dns"] = ups
+		dns["rewrites"] = []any{
+			map[string]any{"domain": fmt.Sprintf("a%d.example", j), "answer": "1.2.3.4"},
+			map[string]any{"domain": fmt.Sprintf("b%d.example", j), "answer": fmt.Sprintf("c%d.example", j)},
+		}
+	}
+	b, err := yaml.Marshal(root)
+	if err != nil {
+		return nil
+	}
+	return b
+}
+
 // c13LoadSeeds builds the seed list; mig is used (unmutated, inside recover)
 // to derive the synthetic document at every version.
 func c13LoadSeeds(rep *verifkit.Report, mig *configmigrate.Migrator, dataDir string) (seeds []c13Seed) {
@@ -616,6 +686,29 @@ func c13LoadSeeds(rep *verifkit.Report, mig *configmigrate.Migrator, dataDir str
 			body = o.Body
 		}
 		seeds = append(seeds, c13Seed{Name: fmt.Sprintf("full@%d", k), Body: body})
+	}
+	// Synthetic documents with 2-5 persistent clients that differ in every
+	// per-client field a step rewrites, and with longer upstream lists, at
+	// every version (element-wise oracle, see c13CheckMoves).
+	mrng := rep.Rand("multi-client-seeds")
+	for j := 0; j < verifkit.Pick(4, 12); j++ {
+		src := c13MultiClientDoc(mrng, j, oldB)
+		if src == nil {
+			rep.Event("synthetic_seed_not_derivable")
+			continue
+		}
+		for k := 0; k < c13Last; k++ {
+			body := src
+			if k > 0 {
+				o := c13Run(mig, src, uint(k))
+				if o.Panicked || o.Err != nil || !o.Upgraded {
+					rep.Event("synthetic_seed_not_derivable")
+					continue
+				}
+				body = o.Body
+			}
+			seeds = append(seeds, c13Seed{Name: fmt.Sprintf("clients#%d@%d", j, k), Body: body})
+		}
 	}
 	// Minimal documents.
 	for k := 0; k <= c13Last; k++ {
@@ -1133,6 +1226,168 @@ func c13CheckPreserved(from int, in, out map[string]any) (losses []c13Loss, comp
 	return losses, compared
 }
 
+// c13FilteringMoves are the keys step 26 moves from dns to filtering.
+var c13FilteringMoves = []string{"filtering_enabled", "filters_update_interval", "parental_enabled", "safebrowsing_enabled",
+	"safebrowsing_cache_size", "safesearch_cache_size", "parental_cache_size", "safe_search", "rewrites",
+	"blocked_services", "protection_enabled", "blocking_mode", "blocking_ipv4", "blocking_ipv6",
+	"blocked_response_ttl", "protection_disabled_until", "parental_block_host", "safebrowsing_block_host"}
+
+// c13CheckMoves is the element-wise oracle: a value that a pending step moves
+// (renames, wraps or relocates) must arrive, unchanged, in the element / the
+// section it came from.  It looks inside every list the steps rewrite:
+// clients (ids <- ip, mac; safe_search.enabled <- safesearch_enabled;
+// blocked_services.ids <- blocked_services), dns.upstream_dns and
+// dns.local_ptr_upstreams (element i stays element i, quic:// upstreams may
+// gain the port), querylog/statistics.ignored ("." becomes "|.^"), and the
+// settings step 26 moves from dns to filtering (incl. rewrites).  Only values
+// of the type the step accepts are considered (others make the step fail or
+// are defined by it to be replaced by a default).
+func c13CheckMoves(from int, in, out map[string]any) (losses []c13Loss, compared int, multiClient bool) {
+	bad := func(where, what string) { losses = append(losses, c13Loss{where, what}) }
+	eq := func(where string, want, got any) {
+		compared++
+		if c13Canon(want) != c13Canon(got) {
+			bad(where, fmt.Sprintf("expected %.200s (the value of the same element / section of the input), found %.200s", c13Canon(want), c13Canon(got)))
+		}
+	}
+	asMap := func(v any) map[string]any { m, _ := v.(map[string]any); return m }
+	// Clients.
+	var inItems []any
+	if from < 14 {
+		inItems, _ = in["clients"].([]any)
+	} else {
+		inItems, _ = asMap(in["clients"])["persistent"].([]any)
+	}
+	outItems, _ := asMap(out["clients"])["persistent"].([]any)
+	if len(inItems) > 0 && len(inItems) == len(outItems) {
+		distinct := map[string]bool{}
+		for i := range inItems {
+			a, b := asMap(inItems[i]), asMap(outItems[i])
+			if a == nil || b == nil {
+				continue
+			}
+			if from < 6 {
+				var want []string
+				usable := true
+				for _, k := range []string{"ip", "mac"} {
+					v, has := a[k]
+					if !has || v == nil {
+						continue
+					}
+					sv, isStr := v.(string)
+					if !isStr {
+						usable = false
+					} else if sv != "" {
+						want = append(want, c13Canon(sv))
+					}
+				}
+				if usable {
+					distinct[strings.Join(want, ",")] = true
+					compared++
+					got, isList := b["ids"].([]any)
+					var gs []string
+					for _, g := range got {
+						gs = append(gs, c13Canon(g))
+					}
+					w := append([]string{}, want...)
+					sort.Strings(w)
+					sort.Strings(gs)
+					if !isList || strings.Join(w, ",") != strings.Join(gs, ",") {
+						bad("clients[].ids", fmt.Sprintf("client %d (name %v) has ip/mac %v in the input but ids %.200s in the result", i, a["name"], want, c13Canon(b["ids"])))
+					}
+				}
+			}
+			if v, isBool := a["safesearch_enabled"].(bool); isBool && from < 19 {
+				eq("clients[].safe_search.enabled", v, asMap(b["safe_search"])["enabled"])
+			}
+			if l, isList := a["blocked_services"].([]any); isList && from < 22 {
+				eq("clients[].blocked_services.ids", l, asMap(b["blocked_services"])["ids"])
+			}
+		}
+		multiClient = from < 6 && len(distinct) >= 2
+	}
+	// DNS section.
+	src := asMap(in["dns"])
+	if from < 2 {
+		if v, has := in["coredns"]; has {
+			src = asMap(v)
+		}
+	}
+	outDNS := asMap(out["dns"])
+	if src != nil && outDNS != nil && from < 10 {
+		for _, k := range []string{"upstream_dns", "local_ptr_upstreams"} {
+			al, isList := src[k].([]any)
+			if !isList {
+				continue
+			}
+			bl, _ := outDNS[k].([]any)
+			compared++
+			if len(al) != len(bl) {
+				bad("dns."+k+"[]", fmt.Sprintf("list had %d items, result has %d", len(al), len(bl)))
+				continue
+			}
+			for i := range al {
+				as, isStr := al[i].(string)
+				if !isStr {
+					continue
+				}
+				bs, _ := bl[i].(string)
+				if bs != as && !(strings.Contains(as, "quic://") && strings.Replace(bs, ":784", "", 1) == as) {
+					bad("dns."+k+"[]", fmt.Sprintf("item %d was %q, is %q", i, as, bs))
+				}
+			}
+		}
+	}
+	if src != nil && from < 26 {
+		flt := asMap(out["filtering"])
+		for _, k := range c13FilteringMoves {
+			v, has := src[k]
+			if !has || v == nil {
+				continue
+			}
+			switch {
+			case k == "safe_search" && from < 18:
+				continue // replaced by step 18
+			case k == "blocked_services" && from < 21:
+				if l, isList := v.([]any); isList {
+					eq("filtering.blocked_services.ids", l, asMap(flt["blocked_services"])["ids"])
+				}
+				continue
+			}
+			eq("filtering."+k, v, flt[k])
+		}
+		if v, isBool := src["safesearch_enabled"].(bool); isBool && from < 18 {
+			eq("filtering.safe_search.enabled", v, asMap(asMap(out["filtering"])["safe_search"])["enabled"])
+		}
+	}
+	// Ignored hosts.
+	for sect, born := range map[string]int{"querylog": 15, "statistics": 16} {
+		if from < born || from >= 27 {
+			continue
+		}
+		al, isList := asMap(in[sect])["ignored"].([]any)
+		if !isList {
+			continue
+		}
+		bl, _ := asMap(out[sect])["ignored"].([]any)
+		compared++
+		if len(al) != len(bl) {
+			bad(sect+".ignored[]", fmt.Sprintf("list had %d items, result has %d", len(al), len(bl)))
+			continue
+		}
+		for i := range al {
+			var want any = al[i]
+			if al[i] == "." {
+				want = "|.^"
+			}
+			if c13Canon(want) != c13Canon(bl[i]) {
+				bad(sect+".ignored[]", fmt.Sprintf("item %d was %.100s, is %.100s", i, c13Canon(al[i]), c13Canon(bl[i])))
+			}
+		}
+	}
+	return losses, compared, multiClient
+}
+
 // ---------------------------------------------------------------------------
 // Driving Migrate.
 
@@ -1538,6 +1793,15 @@ func c13Eval(mig *configmigrate.Migrator, c *c13Case) (res *c13Result) {
 				violate("not-preserved:"+l.where, "a setting that no pending step concerns was not preserved at "+l.where+": "+l.what,
 					map[string]any{"from_version": from, "result": c13BodyText(one.Body)})
 			}
+			moved, nm, multi := c13CheckMoves(from, doc, oneDoc)
+			res.events["moved_values_compared_element_wise"] += nm
+			if multi {
+				res.events["documents_with_2plus_distinct_clients_upgraded_from_v5_or_older"]++
+			}
+			for _, l := range moved {
+				violate("moved-value:"+l.where, "a value that a pending step moves did not arrive unchanged in its own element / section at "+l.where+": "+l.what,
+					map[string]any{"from_version": from, "result": c13BodyText(one.Body)})
+			}
 		}
 	}
 	if from < 0 || from >= c13Last {
@@ -1921,6 +2185,8 @@ func TestVerifC13(t *testing.T) {
 		"documents_with_sentinels_compared":    200,
 		"golden_documents_loaded":              40,
 		"bcrypt_hashes_normalised":             2,
+		"moved_values_compared_element_wise":   5000,
+		"documents_with_2plus_distinct_clients_upgraded_from_v5_or_older": 100,
 	}
 	needKeys := make([]string, 0, len(need))
 	for k := range need {
